@@ -24,6 +24,8 @@ struct track
 {
     int fd4;
     int fd6;
+    bool fd4_bound;
+    bool fd6_bound;
     int fd_reg_id;
     double tcp_connect_timeout;
     struct tcp_opts tcp_opts;
@@ -134,6 +136,12 @@ static void track_disassociate_current_fd(struct track *track)
     *fd = -1;
 }
 
+static bool *track_get_current_bound_ptr(struct track *track)
+{
+    return track_get_current_family(track) == AF_INET ?
+	&track->fd4_bound : &track->fd6_bound;
+}
+
 static int64_t track_get_current_scope(struct track *track)
 {
     sa_family_t family = track_get_current_family(track);
@@ -200,7 +208,9 @@ static void track_connect_next(struct track *track)
 	return;
     }
 
-    if (track->has_local_ip) {
+    /* a socket is reused for all addresses of its family, but can
+       only be bound once */
+    if (track->has_local_ip && !*track_get_current_bound_ptr(track)) {
 	struct sockaddr_storage laddr;
 	int64_t scope = track_get_current_scope(track);
 
@@ -217,6 +227,8 @@ static void track_connect_next(struct track *track)
 	    track_connect_next(track);
 	    return;
 	}
+
+	*track_get_current_bound_ptr(track) = true;
     }
 
     ut_assert(track->fd_reg_id == -1);
